@@ -1,7 +1,7 @@
 SPECIFICATION Spec
-CONSTANTS MaxN = 4 MaxIter = 3 StrictA = FALSE
+CONSTANTS MaxN = 3 MaxIter = 3 StrictA = FALSE
   AsIs_UnconditionalUnshuffle = FALSE Mut_NoReshuffle = TRUE Mut_FeedUnlabeled = FALSE Mut_InverseMixup = FALSE
-CONSTANT Thresholds <- ThrMid
+CONSTANT Thresholds <- ThrSmall
 CONSTANT ShuffleVals <- BothB
 INVARIANT LabelsAligned
 CHECK_DEADLOCK FALSE
